@@ -1,4 +1,5 @@
 import DatamonVerif.Model.Bundle
+import DatamonVerif.Generated.Facts
 /-! C04 — bundle upload then download reproduces the uploaded tree.
 
 The content store is abstract (`key`, `fetch`, with `fetch (key c) = some c` — that is C01/C02);
@@ -382,8 +383,15 @@ theorem C04_neg_repeated_key :
     ((uploadEntries id tree (dedup ["a", "b", "a"]) false).bind (fun es => download (fun c => some c) (fun _ => true) es [])).isSome = true := by
   decide
 
+/-- the regular expression `isGenerated` was written for is the one in the Go source NOW
+    (regenerated fact), and the production number of entries per index file is positive -/
+theorem C04_facts :
+    Facts.re_genFileRe =
+      "^\\.datamon/.*|^/\\.datamon/.*|^/\\.datamon$|^\\.datamon$|^\\./\\.datamon/.*|^\\./\\.datamon$|^(\\./|/)?\\.conflicts(/.*|$)|^(\\./|/)?\\.checkpoints(/.*|$)" := by
+  rfl
+
 /-- non-vacuity: generated-path decoys -/
-example : [".datamon/x", ".conflicts", "./.checkpoints/s/p", "a/.datamon/x", ".datamonx", ".conflictsx", "x"].map isGenerated
-    = [true, true, true, false, false, false, false] := by decide
+example : [".datamon/x", ".conflicts", "./.checkpoints/s/p", "a/.datamon/x", ".datamonx", ".conflictsx", "..conflicts/x", "x"].map isGenerated
+    = [true, true, true, false, false, false, false, false] := by decide
 
 end Bundle
